@@ -185,7 +185,7 @@ fn pnm_roundtrip_owned(w: u32, h: u32, px: &[[u8; 3]], r: &mut Report) {
     let case = obj! {"kind" => "pnm-rt-owned", "w" => w, "h" => h, "px" => hex(&px.concat())};
     let buf = match caught(|| Buf2::new_from((w, h), px.iter().map(|p| rgb(p[0], p[1], p[2])))) {
         Ok(b) => b,
-        Err(_) => { r.h("owned-buffer-not-constructible"); return; }
+        Err(p) => { r.violation(format!("pnm-owned-ctor-panic|{w}x{h}"), format!("Buf2::new_from(({w},{h})) with exactly {} pixels panicked: {p}", px.len()), case); return; }
     };
     let tag = format!("owned {w}x{h} {}", hex(&px.concat()));
     if px.len() > 16 || px.iter().flatten().fold(w.wrapping_mul(31) ^ h, |a, b| a.wrapping_mul(131).wrapping_add(*b as u32)) % 16 == 0 { pnm_roundtrip_file(buf.as_slice2(), &(w, h, px.to_vec()), r, &tag, case.clone()); }
@@ -208,8 +208,8 @@ fn pnm_roundtrip_subviews(r: &mut Report, nested: bool, only: Option<(u32, u32, 
             let case = obj! {"kind" => "pnm-rt-view", "rect" => vec![l, rr, t, b, l2, r2, t2, b2]};
             let tag = format!("view {l}..{rr}x{t}..{b} > {l2}..{r2}x{t2}..{b2}");
             let expect: Vec<[u8; 3]> = (t + t2..t + b2).flat_map(|y| (l + l2..l + r2).map(move |x| (x, y))).map(|(x, y)| pix(x, y)).collect();
-            let v1 = match caught(|| parent.slice((l..rr, t..b))) { Ok(v) => v, Err(_) => { r.h("zero-area-view-construction-panics(carve-out)"); return; } };
-            let v2 = match caught(|| v1.slice((l2..r2, t2..b2))) { Ok(v) => v, Err(_) => { r.h("zero-area-view-construction-panics(carve-out)"); return; } };
+            let v1 = match caught(|| parent.slice((l..rr, t..b))) { Ok(v) => v, Err(p) => { r.violation(format!("pnm-view-panic|{tag}"), format!("slicing the in-bounds rectangle ({l}..{rr}, {t}..{b}) panicked: {p}"), case); return; } };
+            let v2 = match caught(|| v1.slice((l2..r2, t2..b2))) { Ok(v) => v, Err(p) => { r.violation(format!("pnm-view-panic|{tag}"), format!("slicing the in-bounds rectangle ({l2}..{r2}, {t2}..{b2}) of a view panicked: {p}"), case); return; } };
             pnm_roundtrip_view(v2, &(r2 - l2, b2 - t2, expect), r, &tag, case);
         };
         if nested {
@@ -250,22 +250,38 @@ fn pnm_text_binary(idx: u64, r: &mut Report, imgs: &[(u32, u32, Vec<[u8; 3]>)], 
         r.eval();
         let pxs: Vec<[u8; 3]> = if gray { px.iter().map(|p| [p[0]; 3]).collect() } else { px.clone() };
         let (mt, mb) = if gray { ("P2", "P5") } else { ("P3", "P6") };
-        let mut bin: Vec<u8> = format!("{mb}{s1}{w}{s2}{h}{s3}255").into_bytes();
+        // numerals may carry leading zeros (to 15, 16, 17 or 25 characters) in one of: width, height, maxval, the samples
+        let (padw, padfield) = ([0usize, 15, 16, 17, 25][(idx / 3 % 5) as usize], idx / 15 % 4);
+        let num = |v: u32, field: u64| if field == padfield { format!("{v:0>padw$}") } else { v.to_string() };
+        let hdr = format!("{s1}{}{s2}{}{s3}{}", num(*w, 0), num(*h, 1), num(255, 2));
+        let mut bin: Vec<u8> = format!("{mb}{hdr}").into_bytes();
         bin.extend_from_slice(term);
-        let mut txt: Vec<u8> = format!("{mt}{s1}{w}{s2}{h}{s3}255").into_bytes();
+        let mut txt: Vec<u8> = format!("{mt}{hdr}").into_bytes();
         let mut k = 0;
         for p in &pxs {
             let ch: &[u8] = if gray { &p[..1] } else { &p[..] };
             for c in ch {
                 if gray { bin.push(*c); }
                 txt.extend_from_slice(sample_sep(k).as_bytes());
-                txt.extend_from_slice(c.to_string().as_bytes());
+                txt.extend_from_slice(num(*c as u32, 3).as_bytes());
                 k += 1;
             }
             if !gray { bin.extend_from_slice(p); }
         }
         // text files end with or without a trailing newline
         if idx % 2 == 0 { txt.push(b'\n'); }
+        // the same two files with a smaller maxval in the header (samples may exceed it): whatever the decoder makes of that,
+        // it must make the same of the text and of the binary encoding
+        if idx % 5 == 0 {
+            for mv in ["100", "1"] {
+                let swap = |b: &Vec<u8>| -> Vec<u8> { let pos = b.windows(3).position(|w| w == b"255").unwrap(); let mut o = b[..pos].to_vec(); o.extend_from_slice(mv.as_bytes()); o.extend_from_slice(&b[pos + 3..]); o };
+                if padfield == 2 && padw > 0 { continue; }
+                let (b2, t2) = (swap(&bin), swap(&txt));
+                if let (Ok((a, _)), Ok((b, _))) = (decode_both(&b2), decode_both(&t2)) {
+                    if a.is_ok() != b.is_ok() || (a.is_ok() && a != b) { r.violation(format!("pnm-text-binary|maxval {mv}|{mt}|{}", show(&t2)), format!("with maxval {mv}: binary file decoded to {a:?}, text file {:?} to {b:?}", show(&t2)), obj! {"kind" => "pnm-total", "bytes" => hex(&t2)}); }
+                }
+            }
+        }
         let expect: Result<Img, String> = Ok((*w, *h, pxs.clone()));
         for (nm, bytes) in [("binary", &bin), ("text", &txt)] {
             let case = obj! {"kind" => "pnm-total", "bytes" => hex(bytes)};
@@ -577,6 +593,29 @@ fn run_obj(cfg: &Cfg) -> ! {
         let s = if before == 1 { format!("{f}{vs}") } else { format!("{vs}{f}") };
         obj_totality(s.as_bytes(), r, "face-tokens");
     }));
+    // coordinate tokens over the whole f32 range in every position of a vertex line: decimal literals (subnormal, smallest
+    // normal, largest, beyond 7 digits, rounding to zero) must decode to the correctly rounded value; the others
+    // (infinities, NaN, overflowing exponents, malformed numerals) are judged for totality (error or a buildable mesh)
+    {
+        let well = ["1e-40", "-1e-45", "1.4e-45", "1.1754942e-38", "1.17549435e-38", "-1.17549435e-38", "3.4028235e38", "-3.4028235e38", "1e38", "0.000000000000000000000000000000000000001", "123456789", "16777217", "0.1", "1e-46", "4.2E-42", "000.5", "5.", "-0.0"];
+        let other = ["inf", "-inf", "+inf", "nan", "NaN", "-nan", "infinity", "Infinity", "1e39", "-1e39", "3.4028236e38", "1e400", "1e-400", "1e", "e5", ".", "+", "-", "0x10", "1_0", "1,5", "1.2.3", "--1", "1e+", "1e-", "1f", "1e5e5", "\u{221e}", "\u{661}"];
+        let (nw, no) = (well.len() as u64, other.len() as u64);
+        rep.merge(par_range(cfg, (nw + no) * 3 * 2, |i, r| {
+            let (k, pos, crlf) = ((i % (nw + no)) as usize, (i / (nw + no) % 3) as usize, i / (nw + no) / 3 == 1);
+            let tok = if k < well.len() { well[k] } else { other[k - well.len()] };
+            let mut c = ["0.5", "-2", "7"]; c[pos] = tok;
+            let nl = if crlf { "\r\n" } else { "\n" };
+            let text = format!("v {} {} {}{nl}v 1 0 0{nl}v 0 1 0{nl}f 1 2 3{nl}", c[0], c[1], c[2]);
+            if k >= well.len() { obj_totality(text.as_bytes(), r, "coord-tokens"); return; }
+            r.eval();
+            let val = |t: &str| t.parse::<f32>().unwrap().to_bits();
+            let expect: ObjMesh = (vec![[val(c[0]), val(c[1]), val(c[2])], [1.0f32.to_bits(), 0, 0], [0, 1.0f32.to_bits(), 0]], vec![[0, 1, 2]]);
+            match obj_decode(text.as_bytes()) {
+                Ok((Ok(m), Ok(m2))) if m == expect && m2 == expect => r.nontrivial(),
+                other => r.violation(format!("obj-wellformed|coord-token|{tok}|pos{pos}"), format!("vertex line with the coordinate literal {tok}: decoded to {:?}, expected the correctly rounded value {:e}", other, f32::from_bits(val(tok))), obj! {"kind" => "obj-total", "bytes" => hex(text.as_bytes())}),
+            }
+        }));
+    }
     let seeds: Vec<Vec<u8>> = vec![
         b"v 0 0 0\nv 1 0 0\nv 0 1 0\nf 1 2 3\n".to_vec(),
         b"f 1 2 3\nv 0 0 0\nv 1 0 0\nv 0 1 0\n".to_vec(),
